@@ -69,9 +69,14 @@ CLAIMED = {
  "C14": C("Proved: C14_xtext_roundtrip (decodeXtext (encodeXtext s) = s for every string over 7-bit ASCII) and C14_monitor_model. All five codec functions compared with the Lean model on every Unicode scalar value (thorough) and short strings over the significant alphabet; round-trip laws judged on the implementation's own encode/decode pairs; e2e probe: the real client talks to the real server and the options the backend observed are compared field by field with those given (every string option from the alphabet, option subsets, RRVS instants in several zones).",
           'DESIGN.md 0.3 + 7 C14', 'Lean 4 proof (xtext) + executable codec model + law monitors + differential correspondence (xtext, rt, e2e probes)',
           'utf-8-addr-xtext / unitext round trips are decided by exhaustive enumeration of scalar values against the model and the law monitor, not yet by a theorem'),
- "C15": C("Line discipline and negotiated-parameter monitor on the real client: extension subsets x option subsets, EHLO twice, HELO fallback, "
+ "C15": C("Proved for EVERY argument value (hostile ones included): C15_mail_one_line and C15_rcpt_one_line (the line built from sender/recipient, "
+          "every MailOptions/RcptOptions field, through all three encoders, the decimal and RFC 3339 renderers, contains neither CR nor LF), "
+          "C15_hostile_address_refused (an address with CR/LF yields no line at all), C15_no_ext_no_params (nothing offered => nothing but the "
+          "address is sent), C15_unoffered_is_error (REQUIRETLS/SMTPUTF8 not offered => local error). Implementation: line-discipline and "
+          "negotiated-parameter monitor on the real client over extension subsets x option subsets, EHLO twice, HELO fallback (also after Reset), "
           "hostile strings in every string argument; compared with the Lean client model.",
-          "DESIGN.md 7 C15", "Lean 4 client model + monitors + differential correspondence (cconv probe)", "theorems pending"),
+          "DESIGN.md 0.3 + 7 C15", "Lean 4 proof (command-line builders) + monitors + differential correspondence (cconv probe)",
+          "per-extension gating beyond the empty extension set, and 'one line per protocol step' across a whole call, are decided by the monitor + correspondence"),
  "C16": C('Proved: C16_wire_terminated and C16_roundtrip (for every body with CR only in CRLF, in ANY partition into Write calls and for ANY backend read sizes, dot-writer composed with the DATA reader delivers exactly the body with bare LF -> CRLF and a final CRLF ensured, and the command stream resumes behind the marker), C16_partition_independent, C16_roundtrip_progress, C16_second_close. Implementation: what the client writes is read back with the DATA specification; e2e probe real client -> real server (token bodies, 500-9000-octet bodies around buffer boundaries, partitions, verdicts, stale writer handles).',
           'DESIGN.md 0.3 + 7 C16', 'Lean 4 proof (dot writer o DATA reader) + specification read-back + differential correspondence (cconv, e2e probes)',
           "textproto.dotWriter and bufio.Writer are modelled (tied by the cconv correspondence); 'Close returns the server's verdict' is decided by the e2e judge"),
@@ -93,7 +98,7 @@ CLAIMED = {
 }
 # properties whose check audits at least one machine-checked theorem today (the others are claimed at the level of
 # their correspondence/monitor check until their theorems land)
-PROVED = {"C01", "C02", "C04", "C06", "C07", "C09", "C10", "C12", "C14", "C16", "C19", "C20"}
+PROVED = {"C01", "C02", "C04", "C06", "C07", "C09", "C10", "C12", "C14", "C15", "C16", "C19", "C20"}
 NA_REASON = "check not built yet (work in progress, see DESIGN.md section 10)"
 
 m = {"version": 1, "setup_cmd": "./setup.sh",
